@@ -37,7 +37,17 @@ def run(ctx):
             doc = json.load(open(ctx.replay))
             seed = doc.get("seed", seed)
             want_key = doc.get("key")
-        rc, out = core.sh([exe, "run", "-repo", core.REPO, "-dir", ctx.work, "-seed", str(seed), "-tier", ctx.tier], timeout=3400)
+        cmd = [exe, "run", "-repo", core.REPO, "-dir", ctx.work, "-seed", str(seed), "-tier", ctx.tier]
+        if want_key:
+            # a replay re-examines one input: run only the tie it belongs to (the catalogue inputs are the first
+            # cases of either tie whatever the sizes; random ones need the generator state of a full run of that tie)
+            tie_a = want_key.startswith(("UA ", "UW ", "unknown.read-drops"))
+            cmd += ["-only", "a" if tie_a else "b"]
+            if want_key.startswith("unknown.read-drops"):
+                cmd += ["-cases", "20"]
+            elif want_key.startswith("keep_unknown_fields: union carrying"):
+                cmd += ["-pairs", "1"]
+        rc, out = core.sh(cmd, timeout=3400)
         if rc not in (0, 1) or not os.path.exists(os.path.join(ctx.work, "stats.json")):
             raise core.MachineryError("c09 run failed: " + out[-3000:])
         st = json.load(open(os.path.join(ctx.work, "stats.json")))
